@@ -45,8 +45,9 @@ def translations(s, tier, seed):
 QUICK_FULL = ('generic', 'far-positive')     # combined with all 24 rotations in the quick tier; the rest with 4 rotations
 
 
-def flat_fragment(kind):
-    """A capped fragment rigidly moved so that the planar group of `kind` lies exactly in a plane z = const."""
+def flat_fragment(kind, pucker=0):
+    """A capped fragment rigidly moved so that the planar group of `kind` lies exactly in a plane z = const; `pucker` (in 0.001 A)
+    then lifts the central sp2 atom (first name of the list) out of that plane."""
     s = gen.kind_struct(kind, 'A', 1)
     names = {'ARG': ('CZ', 'NE', 'NH1', 'NH2'), 'HIS': ('CG', 'ND1', 'CD2', 'CE1', 'NE2'), 'ASN': ('CG', 'OD1', 'ND2', 'CB'),
              'GLN': ('CD', 'OE1', 'NE2', 'CG'), 'TRP': ('CD1', 'NE1', 'CE2', 'CD2', 'CG')}[kind]
@@ -60,11 +61,16 @@ def flat_fragment(kind):
     z = int(round(sum(a.z for a in pl) / len(pl)))
     for a in pl:
         a.z = z
+    if pucker:
+        centre = [a for a in pl if a.name == names[0]][0]
+        centre.z += pucker
     return s
 
 
 def inputs(tier):
     out = [dict(src='flat', kind=k) for k in ('ARG', 'HIS', 'ASN', 'GLN', 'TRP')]
+    # the sp2 carbon of a guanidinium / amide lifted 0.15 A out of the plane of its substituents (pyramidalised, as refinement leaves some)
+    out += [dict(src='flat', kind=k, pucker=150) for k in ('ARG', 'ASN', 'GLN')]
     out += [dict(src='corpus', d=d) for d in corpus.pairs('quick', kinds_a=('ASP', 'HIS', 'ARG', 'TYR', 'N+'),
                                                        kinds_b=('LYS', 'GLU', 'C-', 'ARG', 'ASN', 'TRP', 'CYS', 'SER'))[:: (1 if tier == 'thorough' else 2)]]
     out += [dict(src='corpus', d=d) for d in corpus.pairs('quick', kinds_a=('ACT', 'PYR', 'MGU', 'CA'), kinds_b=('LYS', 'GLU', 'HIS', 'MAM', 'MOH'))[:: (1 if tier == 'thorough' else 3)]]
@@ -359,7 +365,7 @@ def run_case(case, ctx, acc):
         return edge_h(case, ctx, acc)
     base_opts = cfg_opts(case)
     if case['src'] == 'flat':
-        s = flat_fragment(case['kind']).translate(gen.seed_offset(ctx.seed))
+        s = flat_fragment(case['kind'], case.get('pucker', 0)).translate(gen.seed_offset(ctx.seed))
     elif case['src'] == 'dup-record':
         s = corpus.build(case['d'], ctx.seed)
         items = list(s.items)
